@@ -102,7 +102,7 @@ CLAUSES = {
            "error fields and cursor movement use the value width; no profile-dependent arithmetic on caller-controlled integers in the decoders; "
            "the chunk-gathering slow path loops until the destination is full; the leaf cursors' remaining()/chunk() agree; a try_* reader that returns Err has consumed nothing on any path (own Err, `?` residual, fallible tail call, io::Read::read_exact & co. which consume before failing: C8); every TryGetError { requested, available } - returned or handed to panic_advance - is built under available < requested, so a request the buffer can serve (zero width at the end, an exact fit) is never refused (C8); what from_*_bytes / from_bits decoded is handed out as it is - arithmetic on it is accepted only if, evaluated for every width 0..=8, it selects exactly the bytes read (C2)",
     "C11": "every typed putter uses the conversion/type/byte order/width its name promises (be = tail, le = head slicing of the 8-byte encoding); copy loops "
-           "move min(real lengths) and stop only on exhaustion; BytesMut's growth path moves the bytes in the right direction before re-basing; advance_mut after a specialised write exposes exactly bytes that a dominating write at the write cursor covered (A16); what a putter encodes is its argument through bit-preserving conversions only (C2 value flow); no raw pointer into the buffer survives a call that may move it (A21); bounds taken from a cursor are current where they are used (C9); a put that fits exactly is not refused: the TryGetError given to panic_advance is built under available < requested (C8); a char is narrowed to a byte only where it is known ASCII (U3: `write_char` fast paths)",
+           "move min(real lengths) and stop only on exhaustion; BytesMut's growth path moves the bytes in the right direction before re-basing; advance_mut after a specialised write exposes exactly bytes that a dominating write at the write cursor covered (A16); what a putter encodes is its argument through bit-preserving conversions only (C2 value flow); no raw pointer into the buffer survives a call that may move it (A21); bounds taken from a cursor are current where they are used (C9); a put that fits exactly is not refused: the TryGetError given to panic_advance is built under available < requested (C8); a char is narrowed to a byte only where it is known ASCII (U3: `write_char` fast paths); the provided put_slice / put_bytes return only when everything was written, typed putters write only their encoding on every path (C2), the slice cursors are swapped out only after the length check (C8)",
     "C16": "no profile-dependent arithmetic (overflow/shift asserts, explicit wrapping ops) on caller-controlled integers anywhere in the crate; the "
            "even/odd promotable vtables are slot-wise isomorphic modulo unmasking, the parity dispatch is consistent and vtable identity tests cover both parities; the verdict tables of every rule of the framework (not only the rules listed here) agree between the analysed "
            "configurations - default / no_std / portable-atomic / release-like in the quick tier, K1..K6 in the thorough tier (E3; only the differences are reported here); the conditions of debug_assert! are effect-free, so builds with and without debug assertions run the same state changes (E5); "
